@@ -181,6 +181,8 @@ func (v *Val) Build(order int) interface{} {
 		return Label{v.S}
 	case "time":
 		return time.Unix(v.I, 0).UTC()
+	case "bytes":
+		return []byte(v.S)
 	case "holder": // *Holder; S = title, I != 0: embedded pointer set (ID = I)
 		h := &Holder{Title: v.S}
 		if v.I != 0 {
